@@ -15,7 +15,7 @@ PREDS_C16 = ["FailedOnlyPayer", "OnlyPayerHash", "NoOutputOnFailure", "StatusCon
              "FrameOutput", "ControlFlow"]
 
 BASE = dict(Users='{"a", "b", "c"}', Contracts='{"x", "y", "s", "e"}', SyncContracts='{"s"}', EEContracts='{"e"}',
-            Hangers='{"z"}',
+            Hangers='{"z"}', HxTwins='{"xh"}', CxTwins='{"ac"}',
             Ghosts='{"g"}', Keys='{"k1", "k2"}',
             Prices="{0, 1, 2}", MsgLen="6", CallLen="37", MidPrice="TRUE")
 
@@ -79,6 +79,10 @@ def features(b):
                 f.add("nested-depth-2")
             if tx["to"] == "g":
                 f.add("to-contract-without-code")
+            if tx["to"] in ("xh", "ac") and tx["value"] > 0 and r["code"] == "fail":
+                f.add("transfer-to-wrong-address-form:" + tx["to"])
+            if any(o["o"] == "xfer" and o["a"] == "xh" for o in tx["prog"]) and r["entered"]:
+                f.add("inter-call-transfer-to-wrong-address-form")
             if tx["to"] == "e":
                 f.add("ee-contract:" + ("ok" if r["ok"] else "failed"))
                 if r["ok"] and any(o["o"] == "call" for o in tx["prog"]):
@@ -114,7 +118,8 @@ REQUIRED = ["code:ok", "code:balance", "code:fail", "charge-loop:rollback", "cha
             "code:timeout", "timeout:sync-frame", "timeout:async-frame", "timeout:direct",
             "timeout:below-nested-sync-frame", "timeout:after-events", "timeout:ee-frame",
             "ee-contract:ok", "ee-contract:failed", "ee-contract:ok-with-inter-call",
-            "ee-contract:called-from-other-kind", "limit-below-minimum-charge", "limit-above-invoke-limit"]
+            "ee-contract:called-from-other-kind", "transfer-to-wrong-address-form:xh",
+            "transfer-to-wrong-address-form:ac", "inter-call-transfer-to-wrong-address-form", "limit-below-minimum-charge", "limit-above-invoke-limit"]
 
 
 def generate(ctx, chain, *, bfs, walks, wdepth, maxtx=3, par=1, users=None):
